@@ -17,9 +17,17 @@
                                              `<elem-hex>=<bits|u>,…` in well / group order, `<bits|u>` for
                                              field quantities; `throw` ends the history
 
-  ctx items  E=<bits>  W=a,b  G=a,b  M=<pat-hex>:a,b  F:<key-hex>=<bits>
+    udq.match <pat-hex> <name-hex>        -> 1 | 0          (`Opm::shmatch` = fnmatch(.,.,0); `Model/UdqMatch.lean`)
+    udq.wells <ctx: W= LM L=>* | <pat-hex> -> ok a,b | err   (`WellMatcher::wells(pattern)`, names hex)
+    udq.sort <A|D> <bits|u>,…             -> <rank|u>,…     (SORTA / SORTD called on a hand-made set; exact: the
+                                             stable tie order of `std::sort` on at most 16 defined elements)
+    udq.sortchk <A|D> <bits|u>,… <rank|u>,… -> ok | bad     (the real code's ranks for a set of any size against
+                                             the specification `isSortRank`: permutation of 1..n, strict order)
+
+  ctx items  E=<bits>  W=a,b  G=a,b  LM (matcher built with a WListManager)  L=<list-name-hex>:a,b
+             F:<key-hex>=<bits>
              WV:<var-hex>:<well-hex>=<bits>,…   GV:…   US:<key-hex>=<bits>  UW:<var>:<w>=<bits>,…  UG:…
-  (names in W=, G=, M= lists are hex too)
+  (names in W=, G=, L= lists are hex too; well patterns are answered by the model's own matcher)
 -/
 import OpmVerif.Model.UdqEval
 import OpmVerif.Model.UdqHist
@@ -114,7 +122,7 @@ structure RawCtx where
   eps : Float := 1.0e-4
   wells : List String := []
   groups : List String := []
-  wmatch : List (String × List String) := []
+  wlists : Option (List (String × List String)) := none
   scalars : List (String × Float) := []
   wellVars : List (String × List (String × Float)) := []
   groupVars : List (String × List (String × Float)) := []
@@ -133,9 +141,10 @@ def addCtxItem (c : RawCtx) (item : String) : Option RawCtx :=
   if item.startsWith "E=" then (bitsOf (item.drop 2).toString).map fun e => { c with eps := e }
   else if item.startsWith "W=" then (hexList (item.drop 2).toString).map fun l => { c with wells := l }
   else if item.startsWith "G=" then (hexList (item.drop 2).toString).map fun l => { c with groups := l }
-  else if item.startsWith "M=" then
+  else if item = "LM" then some { c with wlists := some (c.wlists.getD []) }
+  else if item.startsWith "L=" then
     match (item.drop 2).toString.splitOn ":" with
-    | [p, l] => do pure { c with wmatch := ((← hexStr p), (← hexList l)) :: c.wmatch }
+    | [p, l] => do pure { c with wlists := some (c.wlists.getD [] ++ [((← hexStr p), (← hexList l))]) }
     | _ => none
   else if item.startsWith "F:" then
     (parseEntries (item.drop 2).toString).map fun es => { c with scalars := es ++ c.scalars }
@@ -176,7 +185,7 @@ def RawCtx.toCtx (c : RawCtx) : Ctx Float where
   groupVar := fun v =>
     if isUdqKey v then some fun g => ((c.udqGroup.lookup v).getD []).lookup g
     else (c.groupVars.lookup v).map fun es g => es.lookup g
-  wellsMatching := fun p => (c.wmatch.lookup p).getD []
+  wellsMatching := Matcher.matching ⟨c.wells, c.wlists⟩
 
 def parseVT (s : String) : Option VT :=
   match s with
@@ -190,6 +199,17 @@ def showSet (u : USet Float) : String :=
     ",".intercalate (u.vals.map fun (n, v) => strHex n ++ "=" ++ (match v with
       | some x => natHex16 x.toBits.toNat
       | none => "u")))
+
+def parseOptVals (s : String) : Option (List (Option Float)) :=
+  if s = "-" then some [] else
+  (s.splitOn ",").mapM fun e => if e = "u" then some none else (bitsOf e).map some
+
+def parseRanks (s : String) : Option (List (Option Nat)) :=
+  if s = "-" then some [] else
+  (s.splitOn ",").mapM fun e => if e = "u" then some none else e.toNat?.map some
+
+def showRanks (rs : List (Option Nat)) : String :=
+  if rs.isEmpty then "-" else ",".intercalate (rs.map fun r => match r with | some k => toString k | none => "u")
 
 def splitBar (args : List String) : List String × List String :=
   (args.takeWhile (· ≠ "|"), (args.dropWhile (· ≠ "|")).drop 1)
@@ -282,6 +302,36 @@ def handle (op : String) (args : List String) : String :=
       | _, _, _ => "bad-op"
     | _ => "bad-op"
   | "udq.hist" => Hist.handleHist args
+  | "udq.match" =>
+    match args.mapM hexStr with
+    | some [p, n] => if globS p n then "1" else "0"
+    | _ => "bad-op"
+  | "udq.wells" =>
+    let (ctxItems, pat) := splitBar args
+    match ctxItems.foldlM addCtxItem ({} : RawCtx), pat.mapM hexStr with
+    | some rc, some [p] =>
+      match Matcher.matching ⟨rc.wells, rc.wlists⟩ p with
+      | .ok ws => "ok " ++ (if ws.isEmpty then "-" else ",".intercalate (ws.map strHex))
+      | .error _ => "err"
+    | _, _ => "bad-op"
+  | "udq.sort" =>
+    match args with
+    | [d, vs] =>
+      match parseOptVals vs with
+      | some vals =>
+        let before : Float → Float → Bool := if d = "A" then (fun a b => a < b) else (fun a b => b < a)
+        showRanks (sortRanks before vals)
+      | none => "bad-op"
+    | _ => "bad-op"
+  | "udq.sortchk" =>
+    match args with
+    | [d, vs, rs] =>
+      match parseOptVals vs, parseRanks rs with
+      | some vals, some ranks =>
+        let before : Float → Float → Bool := if d = "A" then (fun a b => a < b) else (fun a b => b < a)
+        if isSortRank before vals ranks then "ok" else "bad"
+      | _, _ => "bad-op"
+    | _ => "bad-op"
   | "udq.tokenize" =>
     match args.mapM hexStr with
     | none => "bad-op"
